@@ -7,6 +7,7 @@
 
 #include <gpc/utils.h>
 #include "pcg_basic.h"
+#include <string.h>
 
 #if !(defined(__COMPCERT__) && defined(GPC_IMPLEMENTATION))
 extern inline uintptr_t gp_round_to_aligned(uintptr_t x, uintptr_t boundary);
@@ -88,32 +89,56 @@ bool gp_check_bounds(size_t* start, size_t* end, size_t limit)
 
 //static pcg32_random_t pcg32_global = PCG32_INITIALIZER;
 
+// GPRandomState and pcg32_random_t are distinct struct types with the same
+// layout. Accessing one through a pointer to the other breaks the aliasing
+// rules (seen as wrong numbers once the compiler inlines these functions into
+// the caller, e.g. the single header library at -O3), so the state is copied.
+static inline pcg32_random_t gp_pcg_load(const GPRandomState* state)
+{
+    pcg32_random_t rng;
+    memcpy(&rng, state, sizeof rng);
+    return rng;
+}
+static inline void gp_pcg_store(GPRandomState* state, const pcg32_random_t* rng)
+{
+    memcpy(state, rng, sizeof*rng);
+}
+
 GPRandomState gp_new_random_state(uint64_t seed)
 {
+    pcg32_random_t rng;
+    pcg32_srandom_r(&rng, seed, 0xf35d3918378e53c4ULL);
     GPRandomState state;
-    pcg32_srandom_r((pcg32_random_t*)&state, seed, 0xf35d3918378e53c4ULL);
+    gp_pcg_store(&state, &rng);
     return state;
 }
 
 uint32_t gp_random(GPRandomState* state)
 {
-    return pcg32_random_r((pcg32_random_t*)state);
+    pcg32_random_t rng = gp_pcg_load(state);
+    const uint32_t r = pcg32_random_r(&rng);
+    gp_pcg_store(state, &rng);
+    return r;
 }
 
 double gp_frandom(GPRandomState* state)
 {
-    return ldexp(pcg32_random_r((pcg32_random_t*)state), -32);
+    return ldexp(gp_random(state), -32);
 }
 
 int32_t gp_random_range(GPRandomState* state, int32_t min, int32_t max)
 {
+    pcg32_random_t rng = gp_pcg_load(state);
+    int32_t result;
     if (max >= min) { // unsigned span: no signed overflow, min == max yields min
         const uint32_t span = (uint32_t)max - (uint32_t)min + 1; // 0 means all 2^32 values
         const uint32_t r = span != 0 ?
-            pcg32_boundedrand_r((pcg32_random_t*)state, span) :
-            pcg32_random_r((pcg32_random_t*)state);
-        return (int32_t)((uint32_t)min + r);
+            pcg32_boundedrand_r(&rng, span) :
+            pcg32_random_r(&rng);
+        result = (int32_t)((uint32_t)min + r);
     }
     else
-        return -(int32_t)pcg32_boundedrand_r((pcg32_random_t*)state,(uint32_t)(-max + min - 1)) + min;
+        result = -(int32_t)pcg32_boundedrand_r(&rng,(uint32_t)(-max + min - 1)) + min;
+    gp_pcg_store(state, &rng);
+    return result;
 }
